@@ -157,6 +157,49 @@ def refine_fault_run(case, k, excname, nglobal, ntotal):
         fail(who + "reported best value %r is worse than the best completed global trial %r" % (val, gbest))
 
 
+def painter_fault_run(case, k, excname, clean, spec, persistent):
+    """A shipped static painter that draws the objective (as the repository's examples attach it) is a listener of
+    the run; it evaluates the objective on a grid when the method stops, inside Solve.  persistent: the objective
+    fails at evaluation k and at every later one; otherwise it fails once, at evaluation k > len(clean), i.e. at one of
+    the painter's own evaluations.  Solve returns and reports the completed trials."""
+    import shutil
+    import tempfile
+    import matplotlib
+    matplotlib.use("Agg")
+    import matplotlib.pyplot as plt
+    from vlib.painters import make_painter
+    outdir = tempfile.mkdtemp(prefix="c16p-")
+    try:
+        run = Run(case["recipe"], case["params"])
+        run.solver.AddListener(make_painter(spec, run.n, outdir))
+        run.problem.fail_at = k
+        run.problem.fail_from = persistent
+        run.problem.fail_exc = EXC[excname]
+        who = "%s painter attached, objective raising %s %s evaluation %d (a clean run makes %d trials): " % (
+            spec["kind"], excname, "from" if persistent else "once, at", k, len(clean))
+        try:
+            sol = run.solve()
+        except BaseException as e:
+            fail(who + "the exception escaped from Solve (as %s: %s); %d trials were completed" %
+                 (type(e).__name__, str(e)[:100], min(k - 1, len(clean))))
+        done = min(k - 1, len(clean))
+        got = [(y, v) for _, y, v in run.problem.log]
+        if got[:done] != clean[:done] or (persistent and len(got) != done):
+            fail(who + "%d successful evaluations, expected the first %d of the clean run" % (len(got), done))
+        if sol is None or sol.numberOfGlobalTrials != done:
+            fail(who + "numberOfGlobalTrials=%r, expected %d" % (getattr(sol, "numberOfGlobalTrials", None), done))
+        pt, val = best_of(sol)
+        check_reported_best(pt, val, run.problem.log[:done], run.problem, who=who)
+        told = [sv for e in run.rec.events if e[0] == "iter" for sv in e[3]]
+        if told != got[:done]:
+            fail(who + "the listener was told about %d trials, %d were completed" % (len(told), done))
+        if persistent:
+            check_search_data(run, who=who)
+    finally:
+        plt.close("all")
+        shutil.rmtree(outdir, ignore_errors=True)
+
+
 def body(case):
     clean_run = Run(case["recipe"], case["params"])
     clean_run.solve()
@@ -193,6 +236,17 @@ def body(case):
             for j, k in enumerate(k for k in ks if 2 <= k <= ntotal):
                 refine_fault_run(case, k, list(EXC)[(j + n) % len(EXC)], n, ntotal)
                 runs += 1
+    # a shipped painter that draws the objective is attached: a failure that persists reaches the painter's own
+    # evaluations when the method stops, and so does a single failure placed among them
+    if n <= 60:
+        nn = clean_run.n
+        spec = ({"kind": "staticnd", "pair": [0, nn - 1], "mode": "lines layers", "calc": "objective function"}
+                if nn >= 2 and n % 2 == 0 else
+                {"kind": "static1d", "mode": "objective function", "bottom": bool(n % 3 == 0), "indx": n % nn})
+        names = list(EXC)
+        painter_fault_run(case, max(2, n // 2), names[n % len(names)], clean, spec, True)
+        painter_fault_run(case, n + 1 + (7 * n) % 140, names[(n + 3) % len(names)], clean, spec, False)
+        runs += 2
     body.counted += runs
     body.hot += interesting
     classes = ["N=%d" % clean_run.n, "clean-trials=%s" % ("<10" if n < 10 else ("<40" if n < 40 else ">=40"))]
